@@ -5,7 +5,8 @@
  *       kind   u8 i8 u16 i16 u32 i32 u64 i64 f32 f64 bool e16 str ks ks2 kt kstr mk st1 st2 st3 st5 st6 st10
  *              (stN: keyed struct of N bytes; elements are the keys, the other members carry the original index redundantly;
  *               seq is k for st1/st2, k:p for the others with p = 'torn' when the members of one struct disagree)
- *       c|f    compact / full reply (full adds vector position and the buffer before/after as hex)
+ *       c|f    compact / full reply (full adds vector position and the buffer before/after as hex); a following 'l' (cl, fl)
+ *              creates the vector's strings / tables first so that they are the LAST bytes of the exact-size block
  *       sortop none | sort | sort_by_<field> | rsort (S_Root_sort)
  *       elems  'n' (field absent) | 'e' (empty) | comma separated elements:
  *              integers decimal; f32/f64 hex bit patterns; str/kstr hex bytes ('-' empty); ks: k; ks2: k8/kdbits/k64;
@@ -44,13 +45,16 @@ typedef struct {
 static flatcc_builder_t builder, *B = &builder;
 static int builder_ready = 0;
 
+/* mode letter 'l' (e.g. "cl", "fl"): the vector's objects are created FIRST, so the builder (which emits back to front) places
+ * them LAST in the buffer: the final string's terminator / padding are the last bytes of the exact-size block. */
+static int objects_last = 0;
+static const int32_t decoy_i32[3] = { 3, 1, 2 };
 static void begin_build(void)
 {
-    static const int32_t decoy[3] = { 3, 1, 2 };
     if (!builder_ready) { flatcc_builder_init(B); builder_ready = 1; } else flatcc_builder_reset(B);
     S_Root_start_as_root(B);
     S_Root_tag_add(B, TAG);
-    S_Root_u_i32_create(B, decoy, 3);
+    if (!objects_last) S_Root_u_i32_create(B, decoy_i32, 3);
 }
 
 static int end_build(built_t *b, int with_decoy)
@@ -372,6 +376,7 @@ static int run_offs(int kind, int full, const char *sortop, char *elems, char *q
     int n = 0, i, j, absent = IS(elems, "n"), v0, v1, bad = 0; built_t b; const flatbuffers_uoffset_t *vec = 0; size_t off = 0, ch, len;
     begin_build();
     if (!absent) { n = make_refs(kind, elems, refs); if (n < 0) { printf("BADELEM"); return 0; }
+        if (objects_last) S_Root_u_i32_create(B, decoy_i32, 3);
         switch (kind) {
         case K_STR: S_Root_v_str_add(B, flatbuffers_string_vec_create(B, refs, (size_t)n)); break;
         case K_KT: S_Root_v_kt_add(B, S_KT_vec_create(B, refs, (size_t)n)); break;
@@ -529,7 +534,8 @@ int main(void)
         char *tok[16]; int n = hx_split(line, tok, 16);
         if (n == 0) { printf("\n"); continue; }
         if (IS(tok[0], "V") && n == 6) {
-            const char *k = tok[1]; int full = IS(tok[2], "f");
+            const char *k = tok[1]; int full = tok[2][0] == 'f';
+            objects_last = strchr(tok[2], 'l') != 0 && (IS(k, "str") || IS(k, "kstr") || IS(k, "mk") || IS(k, "kt"));
             if (IS(k, "u8")) run_u8(full, tok[3], tok[4], tok[5]);
             else if (IS(k, "i8")) run_i8(full, tok[3], tok[4], tok[5]);
             else if (IS(k, "u16")) run_u16(full, tok[3], tok[4], tok[5]);
@@ -556,7 +562,7 @@ int main(void)
             else if (IS(k, "mk")) run_offs(K_MK, full, tok[3], tok[4], tok[5]);
             else printf("BADKIND");
         } else if (IS(tok[0], "R")) {
-            run_R(tok, n);
+            objects_last = 0; run_R(tok, n);
         } else printf("BAD");
         printf("\n"); fflush(stdout);
     }
